@@ -18,6 +18,9 @@ THEOREMS = [
     "Mro.find_eq_lookup", "Mro.docsource_eq_getdoc", "Mro.report_iff_python_rejects",
     "Mro.pd_rejects_iff_cpython_rejects", "Mro.getdoc_is_not_the_mro_walk",
     "Mro.pd_eq_cpython_generic", "Mro.mroEntries_eq_localBases", "Mro.pd_eq_cpython_genericOld_counterexample",
+    "Mro.classMro_accept", "Mro.classMro_no_external", "Mro.isException_iff", "Mro.findDunderConstructor_eq_lookup",
+    "Mro.overrides_eq_super", "Mro.overriding_sound", "Mro.overriding_nodup_partial", "Mro.overriding_duplicate_counterexample",
+    "Mro.inherited_members_iff", "Mro.inherited_attribution",
     "Mro.second_pass_canonical", "Mro.second_pass_trigger_independent", "Mro.second_pass_wrong_scope_counterexample",
 ]
 RULE = ("exhaustive: every hierarchy of n<=5 classes in which class i takes any ordered duplicate-free list of bases "
@@ -27,7 +30,10 @@ RULE = ("exhaustive: every hierarchy of n<=5 classes in which class i takes any 
         "classes over 1-3 modules (subscripted generic bases, member m with/without docstring at random levels) through "
         "the real System and through CPython executing the same source; and the same over packages of 2-4 modules that "
         "import each other (only layouts CPython's import system accepts), bases named through aliases bound only in the "
-        "declaring module, every processing order of the modules. Non-trivial = at least one class has two or "
+        "declaring module, every processing order of the modules; every hierarchy of n<=4 classes plus random ones as a module with "
+        "Exception bases, m/__new__/__init__ members (functions or attributes) and hidden classes through Class.mro(flags), "
+        "is_exception, _find_dunder_constructor, get_override_info, overriding_subclasses, inherited_members; a deterministic corpus "
+        "(corpus/C05: inputs of past findings, shapes of the seeded changes) runs first in each stream. Non-trivial = at least one class has two or "
         "more bases.")
 ASSUMPTIONS = [
     "class objects and base-name strings are truthy (`if head and ...` in mro._merge only skips the heads of empty lists); "
@@ -40,10 +46,16 @@ ASSUMPTIONS = [
     "so typing's __mro_entries__ is the filter modelled as PyMro.mroEntries",
     "the run-time docstring reference is attribute lookup along __mro__ (first later class defining the member with a "
     "docstring); inspect.getdoc itself looks the name up with getattr(base, name) per base and can differ — counted, not a failure",
+    "in the `uses` stream the only builtin base is Exception (one external name in _STD_LIB_EXCEPTIONS): unresolved bases are opaque "
+    "leaves for pydoctor, so relations between builtins (ValueError < Exception) are outside the property",
+    "zopeinterface's extra docsources and Class._localNameToFullName/expandName's walk over the MRO (C04's layer) are not modelled here",
     "a class whose ancestor Python refused to create does not exist at run time; the oracle says nothing about it "
     "(pydoctor reports it too; both models agree on `reject`)",
 ]
 PARTIAL = {
+    "Mro.overriding_nodup_partial": "'overridden in' lists no class twice only under single inheritance (every class has at most one "
+                                    "base); with multiple inheritance the statement is false of the code "
+                                    "(Mro.overriding_duplicate_counterexample, open finding overridden-in:listed-twice)",
     "compute_mro.init_finalbaseobjects": "modelled as Mro.secondPass over the recorded AST-pass data (raw base names, "
                                          "_initialbaseobjects, resolveName table) and proved trigger independent; that the names "
                                          "denote the classes Python binds is checked by the direct oracle only (import cycles, all "
@@ -300,6 +312,20 @@ def pd_full(p, order: Optional[Sequence[str]] = None) -> Tuple[Dict[int, Dict[st
             if isinstance(r, model.Class) and r in cidx:
                 triples.append("%d,%d,%d" % (si, ni, cidx[r]))
 
+    def found(nm):
+        # what the second pass tries first: system.find_object(expanded name), LookupError -> None
+        try:
+            return system.find_object(nm)
+        except LookupError:
+            return None
+
+    for o in allcls:
+        if o._finalbaseobjects is not None:
+            for nm, ini, fin in zip(o._initialbases, o._initialbaseobjects, o._finalbaseobjects):
+                if ini is None and isinstance(fin, model.Class):
+                    COUNTS["second-pass:base resolved by " + ("find_object(expanded name)" if isinstance(found(nm), model.Class)
+                                                                else "parent.resolveName(raw name)")] += 1
+
     def cell(b) -> str:
         return "0" if not isinstance(b, model.Class) or b not in cidx else str(cidx[b] + 1)
     res[-1] = {"second": (
@@ -307,7 +333,7 @@ def pd_full(p, order: Optional[Sequence[str]] = None) -> Tuple[Dict[int, Dict[st
             ",".join(str(scopes.index(o.parent)) for o in allcls) or "-",
             ";".join(",".join(str(names[nm]) for nm, _ in o.rawbases) or "-" for o in allcls) or "-",
             ";".join(",".join(cell(b) for b in o._initialbaseobjects) or "-" for o in allcls) or "-",
-            ";".join(",".join(cell(system.objForFullName(nm)) for nm in o._initialbases) or "-" for o in allcls) or "-",
+            ";".join(",".join(cell(found(nm)) for nm in o._initialbases) or "-" for o in allcls) or "-",
             ";".join(triples) or "-",
             ",".join(str(i) for i in range(len(allcls))) or "-"),
         "|".join("N" if o._finalbaseobjects is None else (",".join(cell(b) for b in o._finalbaseobjects) or "-")
@@ -409,6 +435,8 @@ def _py_results(p, mods, status) -> Dict[int, Dict[str, Any]]:
 # ------------------------------------------------------------------ full path, modules that import each other
 
 PKG = "c05pkg"
+import collections
+COUNTS: Dict[str, int] = collections.Counter()     # measured inside the adapters, copied to ctx.count at the end of run()
 
 
 def gen_cyclic(rng, nclasses: int, h=None, spread: bool = False) -> Dict[str, Any]:
@@ -565,6 +593,187 @@ def py_cyclic(p, rng) -> Optional[Tuple[Dict[int, Dict[str, Any]], List[str]]]:
         sys.meta_path.remove(finder)
 
 
+# ------------------------------------------------------------------ consumers of the linearisation
+
+NAMES = ["m", "__new__", "__init__"]
+EXC = 1     # class id of the builtin `Exception` in the `uses` stream (object = 0, own classes from 2)
+
+
+def gen_uses(rng, nclasses: int, h=None) -> Dict[str, Any]:
+    """one module; some classes derive from the builtin Exception (last base), members m / __new__ / __init__ as
+    functions or plain attributes at random levels, some classes hidden through the privacy option"""
+    first = 2
+    if h is None:
+        h = random_hierarchy(rng, nclasses, first)
+    else:
+        h = [tuple(j + 1 for j in b) for b in h]
+    ids = list(range(first, first + nclasses))
+    lines = []
+    bases, contents, funcs = {}, {}, {}
+    for c, b in zip(ids, h):
+        bl = list(b)
+        exprs = ["C%d" % j for j in b]
+        if rng.random() < (0.35 if not b else 0.1):
+            bl.append(EXC)
+            exprs.append("Exception")
+        bases[c] = bl
+        names = [n for n in rng.sample(range(3), 3) if rng.random() < (0.5 if n == 0 else 0.3)]
+        contents[c], funcs[c] = names, []
+        body = []
+        for n in names:
+            if rng.random() < 0.75:
+                funcs[c].append(n)
+                if n == 0:
+                    body.append("    def m(self):\n        \"doc of C%d\"\n" % c)
+                elif n == 1:
+                    body.append("    def __new__(cls, a: int):\n        return super().__new__(cls)\n")
+                else:
+                    body.append("    def __init__(self, b: str):\n        pass\n")
+            else:
+                body.append("    %s = None\n" % NAMES[n])
+        lines.append("class C%d%s:\n%s" % (c, "(%s)" % ", ".join(exprs) if exprs else "", "".join(body) or "    pass\n"))
+    hidden = [c for c in ids if rng.random() < 0.12]
+    return {"n": nclasses, "bases": {str(c): bases[c] for c in ids}, "contents": {str(c): contents[c] for c in ids},
+            "funcs": {str(c): funcs[c] for c in ids}, "hidden": hidden, "modules": {"m0": "".join(lines)}}
+
+
+def uses_request(p, order: List[int]) -> str:
+    ids = sorted(int(c) for c in p["bases"])
+    h = [[], []] + [p["bases"][str(c)] for c in ids]
+    sb = [[], []] + [[0] * len(p["bases"][str(c)]) for c in ids]
+    ct = [[], []] + [p["contents"][str(c)] for c in ids]
+    fn = [[], []] + [p["funcs"][str(c)] for c in ids]
+    return "mro uses %s %s %d %d %s %s %s %s" % (ltoken(h), ltoken(sb), EXC, EXC, ltoken(ct), ltoken(fn),
+                                                 ",".join(map(str, p["hidden"])) or "-", ",".join(map(str, order)) or "-")
+
+
+def pd_uses(p) -> Tuple[Optional[str], List[int], Dict[int, Dict[str, Any]], Optional[str]]:
+    """the real functions: Class.mro flags, is_exception, _find_dunder_constructor, get_override_info,
+    overriding_subclasses, inherited_members"""
+    from pydoctor import model
+    from pydoctor.templatewriter import util, pages
+    try:
+        system = model.System()
+        system.options.privacy = [(model.PrivacyClass.HIDDEN, "m0.C%d" % c) for c in p["hidden"]]
+        builder = system.systemBuilder(system)
+        builder.addModuleString(p["modules"]["m0"], "m0")
+        builder.buildModules()
+    except Exception as e:
+        return None, [], {}, "Crash:" + type(e).__name__ + ":" + str(e)[:80]
+
+    def ident(o) -> int:
+        if isinstance(o, str):
+            return EXC if o == "Exception" else -1
+        return int(o.name[1:])
+    allcls = list(system.objectsOfType(model.Class))
+    order = [ident(o) for o in allcls]
+    by = {ident(o): o for o in allcls}
+    out, res = [], {}
+    for cs in sorted(int(c) for c in p["bases"]):
+        o = by[cs]
+        saved = o._mro
+        o._mro = None
+        try:
+            early1 = [ident(x) for x in o.mro(True, True)]
+            early0 = [ident(x) for x in o.mro(include_self=False)]
+        finally:
+            o._mro = saved
+        ctor = model._find_dunder_constructor(o)
+        ov = None
+        for t in pages.get_override_info(o, "m"):
+            kids = t.children
+            if kids and kids[0] == "overrides ":
+                ov = kids[1].children[0].children[0].rsplit(".", 2)[-2]
+        over = [ident(x) for x in util.overriding_subclasses(o, "m")]
+        inh = [(ident(x.parent), NAMES.index(x.name)) for x in util.inherited_members(o)]
+        r = {"exc": bool(model.is_exception(o)), "kind_exc": o.kind is model.DocumentableKind.EXCEPTION,
+             "ctor": (ident(ctor.parent), NAMES.index(ctor.name)) if ctor is not None else None,
+             "overrides": int(ov[1:]) if ov else None, "over": over, "inh": inh,
+             "params": list(o.constructor_params)}
+        res[cs] = r
+        out.append(":".join([
+            show([ident(x) for x in o.mro(False, True)]), show([ident(x) for x in o.mro(True, False)]),
+            show([ident(x) for x in o.mro(False, False)]), show(early1), show(early0),
+            "1" if r["exc"] else "0", "%d.%d" % r["ctor"] if r["ctor"] else "-", opt(r["overrides"]), show(over),
+            ",".join("%d.%d" % x for x in inh) or "-"]))
+    return "|".join(out), order, res, None
+
+
+def py_uses(p) -> Dict[int, Dict[str, Any]]:
+    """what CPython makes of the same module, read off __mro__ / __dict__ / __bases__ (the property's meaning)"""
+    mod = types.ModuleType("m0")
+    status: Dict[int, str] = {}
+    for st in ast.parse(p["modules"]["m0"]).body:
+        try:
+            exec(compile(ast.Module(body=[st], type_ignores=[]), "m0", "exec"), mod.__dict__)
+            status[int(st.name[1:])] = "ok"
+        except TypeError as e:
+            status[int(st.name[1:])] = "mro" if "MRO" in str(e) else "other:" + str(e)[:60]
+        except NameError:
+            status[int(st.name[1:])] = "ancestor"
+    classes = {int(k[1:]): v for k, v in mod.__dict__.items() if isinstance(v, type) and k[0] == "C"}
+    ident = {v: k for k, v in classes.items()}
+    hidden = set(p["hidden"])
+    res: Dict[int, Dict[str, Any]] = {}
+    all_ok = all(v == "ok" for v in status.values())
+    for c, t in classes.items():
+        gens = [k for k in t.__mro__ if k in ident]
+
+        def owner(name, seq):
+            return next((k for k in seq if name in k.__dict__), None)
+        ctor = None
+        k = owner("__new__", gens)
+        if k is not None:
+            if isinstance(k.__dict__["__new__"], staticmethod):
+                ctor = (ident[k], 1)
+        else:
+            k = owner("__init__", gens)
+            if k is not None and isinstance(k.__dict__["__init__"], types.FunctionType):
+                ctor = (ident[k], 2)
+        ov = owner("m", gens[1:])
+        inh = set()
+        for i, n in enumerate(NAMES):
+            k = owner(n, gens)
+            if k is not None and k is not t and ident[k] not in hidden:
+                inh.add((ident[k], i))
+        over = None
+        if all_ok:
+            # D overrides c.m: D defines m, and some chain of class statements c <- p1 <- ... <- D has no class in
+            # between that defines m; every class on the way down is visible
+            over = set()
+
+            def down(k):
+                for d in classes.values():
+                    if k in d.__bases__ and ident[d] not in hidden:
+                        if "m" in d.__dict__:
+                            over.add(ident[d])
+                        else:
+                            down(d)
+            down(t)
+        res[c] = {"exc": issubclass(t, BaseException), "ctor": ctor, "overrides": ident[ov] if ov else None,
+                  "inh": inh, "over": over}
+    return res
+
+
+def uses_oracle(ctx: Ctx, p, pd, py) -> None:
+    for c, b in py.items():
+        a = pd[c]
+        inp = {"project": p, "class": c}
+        if a["exc"] != b["exc"] or a["kind_exc"] != b["exc"]:
+            ctx.fail("uses:exception-kind", inp, f"C{c}: is_exception={a['exc']} kind={a['kind_exc']}, issubclass(BaseException)={b['exc']}")
+        if a["ctor"] != b["ctor"]:
+            ctx.fail("uses:constructor", inp, f"C{c}: _find_dunder_constructor {a['ctor']}, Python runs {b['ctor']}")
+        if a["overrides"] != b["overrides"]:
+            ctx.fail("uses:overrides", inp, f"C{c}.m 'overrides' {a['overrides']}, super() finds {b['overrides']}")
+        if set(a["inh"]) != b["inh"] or len(set(a["inh"])) != len(a["inh"]):
+            ctx.fail("uses:inherited-member-attribution", inp, f"C{c}: inherited table {a['inh']}, attribute lookup {sorted(b['inh'])}")
+        if b["over"] is not None:
+            if set(a["over"]) != b["over"]:
+                ctx.fail("uses:overridden-in", inp, f"C{c}.m overridden in {a['over']}, by the class statements {sorted(b['over'])}")
+            elif len(set(a["over"])) != len(a["over"]):
+                ctx.fail("overridden-in:listed-twice", inp, f"C{c}.m: overriding_subclasses yields {a['over']} (a subclass reached through two bases is listed twice)")
+
+
 def opt(x) -> str:
     return "-" if x is None else str(x)
 
@@ -701,7 +910,8 @@ def run(ctx: Ctx) -> None:
     nfull = 300 if ctx.quick else 6000
     freq, fout, greq, gout, fpay = [], [], [], [], []
     sreq, sout, spay = [], [], []      # compute_mro's second pass
-    projects = []
+    projects = load_corpus("full")
+    ctx.count("corpus:full", len(projects))
     if not ctx.quick:     # thorough: the whole exhaustive space once more, as source text through the real System
         for n in range(1, 6):
             for h in hierarchies(n):
@@ -738,7 +948,8 @@ def run(ctx: Ctx) -> None:
 
     # ---- full path, modules importing each other (legal Python: CPython's import system decides), bases named
     #      through names bound only in the declaring module, every order in which pydoctor can meet the modules
-    cprojects: List[Tuple[Dict[str, Any], int]] = []
+    cprojects: List[Tuple[Dict[str, Any], int]] = [(p, 24) for p in load_corpus("cyclic")]
+    ctx.count("corpus:cyclic", len(cprojects))
     if not ctx.quick:
         for n in range(2, 6):
             for h in hierarchies(n):
@@ -783,6 +994,37 @@ def run(ctx: Ctx) -> None:
     ctx.compare("System~Mro(import cycles, all orders)", creq, cout, cpay)
     ctx.compare("init_finalbaseobjects~Mro.secondPass", sreq, sout, spay)
 
+    # ---- consumers of the linearisation: mro() flags, is_exception, constructors, overrides / overridden in,
+    #      inherited-member tables (real functions ~ model `mro uses`; CPython as direct oracle)
+    uprojects = load_corpus("uses")
+    ctx.count("corpus:uses", len(uprojects))
+    for n in range(1, 5 if ctx.quick else 6):
+        for h in hierarchies(n):
+            uprojects.append(gen_uses(ctx.rng, n, h=h))
+    ctx.extra["exhaustive_cases_uses"] = len(uprojects)
+    for _ in range(250 if ctx.quick else 4000):
+        uprojects.append(gen_uses(ctx.rng, ctx.rng.randint(5, 10)))
+    ureq, uout, upay = [], [], []
+    for p in uprojects:
+        line, order, pd, crash = pd_uses(p)
+        if crash:
+            ctx.fail("crash:" + crash.split(":")[1], {"project": p}, crash)
+            continue
+        ureq.append(uses_request(p, order))
+        uout.append(line)
+        upay.append({"project": p})
+        py = py_uses(p)
+        ctx.case(ureq[-1], any(len(b_) >= 2 for b_ in p["bases"].values()))
+        ctx.count("uses:projects")
+        for r in pd.values():
+            ctx.count("uses:exception-classes", int(r["exc"]))
+            ctx.count("uses:constructor:" + (NAMES[r["ctor"][1]] if r["ctor"] else "none"))
+            ctx.count("uses:overrides:" + ("some" if r["overrides"] else "none"))
+            ctx.count("uses:inherited-members", len(r["inh"]))
+            ctx.count("uses:overridden-in", len(r["over"]))
+        uses_oracle(ctx, p, pd, py)
+    ctx.compare("mro()/is_exception/constructor/override/inherited~Mro(uses)", ureq, uout, upay)
+
     # ---- Generic[T] at any position among the bases (typing drops it when a later base is subscripted; so does
     #      compute_mro.getbases since commit 749fc3a): models (localBases / mroEntries) and direct oracle
     areq, aout, breq, bout, apay = [], [], [], [], []
@@ -806,6 +1048,26 @@ def run(ctx: Ctx) -> None:
         full_oracle(ctx, p, pd, py, "generic-anywhere")
     ctx.compare("System~Mro(Generic[T] anywhere)", areq, aout, apay)
     ctx.compare("exec~PyMro(Generic[T] anywhere)", breq, bout, apay)
+    flush_counts(ctx)
+
+
+def load_corpus(kind: str) -> List[Dict[str, Any]]:
+    """deterministic corpus: the inputs of past findings and the shapes the seeded changes need (corpus/C05/*.json);
+    runs first in its stream on every run, whatever the seed"""
+    import json
+    from ..core import VERIF
+    res = []
+    for f in sorted((VERIF / "corpus" / "C05").glob("*.json")):
+        d = json.loads(f.read_text())
+        if d.get("kind") == kind:
+            res.append(d["project"])
+    return res
+
+
+def flush_counts(ctx: Ctx) -> None:
+    for k, v in COUNTS.items():
+        ctx.count(k, v)
+    COUNTS.clear()
 
 
 def replay(ctx: Ctx, obj) -> int:
